@@ -1,11 +1,97 @@
-import PyresampleModel.Model.Core
+import PyresampleModel.Model.Grid
 
 /-
-  C18 — model (stub: not built yet).
+  C18 — the five places that assign a projected point to a grid cell, as the code computes them.
+  Cells are (row, col).
 -/
+
 namespace PyresampleModel.C18
 
+open Grid
+
+def validCell (g : Grid) (r c : Int) : Option (Nat × Nat) :=
+  if 0 ≤ c ∧ c < g.w ∧ 0 ≤ r ∧ r < g.h then some (r.toNat, c.toNat) else none
+
+/-- `grid.get_linesample`: `floor(pixel_offset_x + x / pixel_size_x)`, `floor(pixel_offset_y - y / pixel_size_y)` -/
+def linesample (g : Grid) (x y : Rat) : Int × Int :=
+  (pyFloor (g.offy - y / g.dy), pyFloor (g.offx + x / g.dx))
+
+/-- the same before the `fix:` commit: `.astype(np.int32)` truncates toward zero -/
+def linesampleOld (g : Grid) (x y : Rat) : Int × Int :=
+  (pyTrunc (g.offy - y / g.dy), pyTrunc (g.offx + x / g.dx))
+
+/-- `get_linesample` + the validity masks of `get_image_from_linesample` -/
+def linesampleCell (g : Grid) (x y : Rat) : Option (Nat × Nat) :=
+  let p := linesample g x y
+  validCell g p.1 p.2
+
+def linesampleOldCell (g : Grid) (x y : Rat) : Option (Nat × Nat) :=
+  let p := linesampleOld g x y
+  validCell g p.1 p.2
+
+/-- `GridFilter.get_valid_index`: `floor(x / pixel_size_x + pixel_offset_x)`, `floor(pixel_offset_y - y / pixel_size_y)` -/
+def gridFilterCell (g : Grid) (x y : Rat) : Option (Nat × Nat) :=
+  validCell g (pyFloor (g.offy - y / g.dy)) (pyFloor (x / g.dx + g.offx))
+
+/-- `BucketResampler._get_indices`: `floor((x - extent[0]) / x_res)`, `floor((extent[3] - y) / y_res)`, mask → -1 -/
+def bucketIdx (g : Grid) (x y : Rat) : Int × Int :=
+  let c := pyFloor ((x - g.x0) / g.dx)
+  let r := pyFloor ((g.y1 - y) / g.dy)
+  if 0 ≤ c ∧ c < g.w ∧ 0 ≤ r ∧ r < g.h then (r, c) else (-1, -1)
+
+def bucketCell (g : Grid) (x y : Rat) : Option (Nat × Nat) :=
+  let p := bucketIdx g x y
+  if p.1 < 0 then none else some (p.1.toNat, p.2.toNat)
+
+/-- `AreaDefinition.get_array_indices_from_projection_coordinates` (array form): per-axis (mask, index) -/
+def areaIdx (g : Grid) (x y : Rat) : (Bool × Int) × (Bool × Int) :=
+  (maskedInt (g.arrY y) g.h, maskedInt (g.arrX x) g.w)
+
+def areaCell (g : Grid) (x y : Rat) : Option (Nat × Nat) :=
+  let p := areaIdx g x y
+  if p.1.1 || p.2.1 then none else some (p.1.2.toNat, p.2.2.toNat)
+
+/-- `ewa.ll2cr`: `cw = pixel_size_x`, `ch = -|pixel_size_y|`, origin at the upper-left pixel centre -/
+def ll2crCol (g : Grid) (x : Rat) : Rat := (x - (g.x0 + g.dx / 2)) / g.dx
+def ll2crRow (g : Grid) (y : Rat) : Rat :=
+  let ch : Rat := -(if 0 ≤ g.dy then g.dy else -g.dy)
+  (y - (g.y1 + ch / 2)) / ch
+
+/-- the count predicate of `ll2cr_static` -/
+def ll2crInGrid (g : Grid) (x y : Rat) : Bool :=
+  let c := ll2crCol g x
+  let r := ll2crRow g y
+  decide (-1 ≤ c) && decide (c ≤ (g.w : Rat) + 1) && decide (-1 ≤ r) && decide (r ≤ (g.h : Rat) + 1)
+
+/-! ### driver -/
+open Wire
+
+def showCell : Option (Nat × Nat) → String
+  | none => "none"
+  | some (r, c) => s!"{r},{c}"
+
 def handle : List String → Option String
+  | "cells" :: rest => do
+    -- cells <grid: x0 y0 x1 y1 w h> <x> <y>
+    let (g, tl) ← grid? rest
+    match tl with
+    | [x, y] =>
+      let x ← rat? x; let y ← rat? y
+      if g.w = 0 ∨ g.h = 0 ∨ g.dx = 0 ∨ g.dy = 0 then some "err:degenerate" else
+      let ls := linesample g x y
+      let a := areaIdx g x y
+      let b := bucketIdx g x y
+      some (" ".intercalate [
+        "ref=" ++ showCell (cellOf g x y),
+        s!"ls={ls.1},{ls.2}",
+        "lsc=" ++ showCell (linesampleCell g x y),
+        "gf=" ++ showCell (gridFilterCell g x y),
+        s!"bk={b.1},{b.2}",
+        s!"ar={showBool a.1.1},{a.1.2},{showBool a.2.1},{a.2.2}",
+        "ll=" ++ showRat (ll2crCol g x) ++ "," ++ showRat (ll2crRow g y),
+        "ing=" ++ showBool (ll2crInGrid g x y),
+        "fx=" ++ showRat ((x - g.x0) / g.dx) ++ "," ++ showRat ((g.y1 - y) / g.dy)])
+    | _ => none
   | _ => none
 
 end PyresampleModel.C18
